@@ -118,6 +118,60 @@ class OrderedSet:
         return len(self.l)
 
 
+class FlipSet:
+    """set whose iteration order is the insertion order or its reverse (class-level switch chosen by the solver): stands for
+    'any iteration order' of a set of strings under a different PYTHONHASHSEED"""
+    reverse = False
+
+    def __init__(self, it=()):
+        self.l = []
+        for x in it:
+            self.add(x)
+
+    def add(self, x):
+        if x not in self.l:
+            self.l.append(x)
+
+    def update(self, it):
+        for x in it:
+            self.add(x)
+
+    def __contains__(self, x):
+        return x in self.l
+
+    def __iter__(self):
+        return iter(reversed(self.l) if FlipSet.reverse else self.l)
+
+    def __len__(self):
+        return len(self.l)
+
+
+def h_feature_table_order(locus):
+    """the exon / intron feature table of a locus with features shared by two genes: rows (incl. the gene list) are the same
+    whatever order the gene-id sets iterate in"""
+    from props import c13
+    import src.gene_info as gim
+
+    def fn(g):
+        rows = []
+        old = gim.__dict__.get("set")
+        gim.set = FlipSet
+        try:
+            for which in ("order_a", "order_b"):
+                FlipSet.reverse = bool(g.bool(which + "_reversed"))
+                gi = call(g, c13.build_locus, locus, 6)
+                rows.append([r.to_str() for r in gi.exon_property_map] + [r.to_str() for r in gi.intron_property_map])
+        finally:
+            FlipSet.reverse = False
+            if old is None:
+                del gim.set
+            else:
+                gim.set = old
+        g.check(rows[0] == rows[1], "feature table rows do not depend on the iteration order of the gene-id sets",
+                detail={"differing_rows": [(a, b) for a, b in zip(rows[0], rows[1]) if a != b][:3]})
+    return fn
+
+
 def h_gene_choice_order(n_genes):
     """select_reference_gene: the gene a novel transcript is attached to must not depend on the iteration order of the
     gene-id sets (hash seed)"""
@@ -157,6 +211,10 @@ def instances(tier, seed):
         out.append(Instance("reference_gene_choice_order[%d]" % n, h_gene_choice_order(n),
                             ["src.graph_based_model_construction:GraphBasedModelConstructor.select_reference_gene"],
                             "%d genes sharing introns, both iteration orders of the gene-id sets chosen by the solver" % n, weight=50 * n))
+    for locus in ("shared_chain", "antisense"):
+        out.append(Instance("feature_table_set_order[%s]" % locus, h_feature_table_order(locus), ["src.gene_info:GeneInfo.set_feature_properties",
+                                                                                                 "src.gene_info:FeatureInfo.to_str"],
+                            "locus %s (features shared by two genes), both iteration orders of every set in src.gene_info" % locus, weight=10))
     out.append(Instance("exon_id_storage_fresh", c10.h_id_storage_fresh, ["src.dataset_processor:construct_models_in_parallel", "src.id_policy:FeatureIdStorage.__init__"],
                         "two consecutive chromosome runs in one worker process", weight=30))
     # hash seed: group universe order (shared with C09)
